@@ -259,7 +259,7 @@ static void one_linecomment(int rule, int form, int shape)
 	if (cfg_yylval) {
 		_Bool eq = 1;
 		for (unsigned i = 0; i < TOKN; i++) if (i < b - a && (unsigned char)cfg_yylval[i] != t[a + i]) eq = 0;
-		CHECK("C15", eq && cfg_yylval[b - a] == 0, "the comment text is the line without its marker run, trimmed");
+		CHECK("C15,C05", eq && cfg_yylval[b - a] == 0, "the comment text is the line without its marker run, trimmed");
 	}
 	CHECK("C06", h_cfg.line == in_line0, "a one-line comment contains no newline: the line counter does not move");
 	CHECK("C02,C06", g_stdout_writes == 0 && g_diag == 0, "a comment neither prints nor reports");
